@@ -84,6 +84,9 @@ UNKNOWN = Fn(file=C, name="check_pat_constructor", container="Typer", drop_self_
 UNIT = Unit(
     name="U-DIAGORD",
     properties=["C13"],
+    # a failed proof refutes determinism only when the extracted loop walks a hash set (shape A / C: stub iter_order); a loop over the
+    # declaration order that reports in ANOTHER deterministic order is UNDECIDED, not an alarm
+    alarm_only_with=["iter_order("],
     rules=["attrs", ("strip", "tast::"), ("strip", "env::"), ("strip", "super::util::")],
     describe="typer::toplevel::define_trait_impl, the part reporting unimplemented trait methods: the diagnostics are pushed in the trait's "
              "declaration order (a function of the program), one per declared method the impl lacks",
